@@ -174,7 +174,7 @@ pub fn render(spec: &EnumSpec) -> String {
     // the value type of a table needs no Clone / Copy / Default for new, from_closure, transform, indexing, all, all_ok
     let nc_args: Vec<String> = (0..en.len()).map(|j| format!("NoTraits({})", j)).collect();
     o.push_str(&format!(
-        "#[allow(dead_code)]\nstruct NoTraits(u8);\n#[allow(dead_code)]\nfn _value_type_needs_no_traits() {{\n    let mut t = {name}Table::<NoTraits>::new({args});\n    let t2 = {name}Table::<NoTraits>::from_closure(|_| NoTraits(0));\n    let t3 = t2.transform(|_, v| ::core::option::Option::Some(NoTraits(v.0)));\n    let _ = t3.all();\n    let t4 = t.transform(|_, v| ::core::result::Result::<NoTraits, NoTraits>::Ok(NoTraits(v.0)));\n    let _ = t4.all_ok();\n    // closures that CAPTURE (a local, another table), and callables passed by reference / boxed\n    let base = 3u8;\n    let t5 = {name}Table::<u8>::from_closure(|_| base);\n    let t6 = {name}Table::<u8>::from_closure(move |_| base + 1);\n    let t7 = t5.transform(|k, v| *v + t6[k]);\n    let f: &dyn Fn({name}) -> u8 = &|_| base;\n    let _ = {name}Table::<u8>::from_closure(f);\n    let g: Box<dyn Fn({name}, &u8) -> u8> = Box::new(move |_, v| *v + base);\n    let _ = t7.transform(g);\n    t[key(ENABLED[0])] = NoTraits(9);\n    let _ = &t[key(ENABLED[0])];\n    // the key's type is known from the index position only (`.into()`, as with `\"..\".parse().unwrap()`)\n    let _ = &t[key(ENABLED[0]).into()];\n    t[key(ENABLED[0]).into()] = NoTraits(1);\n}}\n",
+        "#[allow(dead_code)]\nstruct NoTraits(u8);\n#[allow(dead_code)]\nfn _value_type_needs_no_traits() {{\n    let mut t = {name}Table::<NoTraits>::new({args});\n    let t2 = {name}Table::<NoTraits>::from_closure(|_| NoTraits(0));\n    let t3 = t2.transform(|_, v| ::core::option::Option::Some(NoTraits(v.0)));\n    let _ = t3.all();\n    let t4 = t.transform(|_, v| ::core::result::Result::<NoTraits, NoTraits>::Ok(NoTraits(v.0)));\n    let _ = t4.all_ok();\n    // closures that CAPTURE (a local, another table), and callables passed by reference / boxed\n    let base = 3u8;\n    let t5 = {name}Table::<u8>::from_closure(|_| base);\n    let t6 = {name}Table::<u8>::from_closure(move |_| base + 1);\n    let t7 = t5.transform(|k, v| *v + t6[k]);\n    let f: &dyn Fn({name}) -> u8 = &|_| base;\n    let _ = {name}Table::<u8>::from_closure(f);\n    let g: Box<dyn Fn({name}, &u8) -> u8> = Box::new(move |_, v| *v + base);\n    let _ = t7.transform(g);\n    // callers may write the generic arguments out\n    let _ = t7.transform::<u16, _>(|_, v| *v as u16);\n    let _ = {name}Table::<u8>::from_closure::<fn({name}) -> u8>(|_| 0);\n    t[key(ENABLED[0])] = NoTraits(9);\n    let _ = &t[key(ENABLED[0])];\n    // the key's type is known from the index position only (`.into()`, as with `\"..\".parse().unwrap()`)\n    let _ = &t[key(ENABLED[0]).into()];\n    t[key(ENABLED[0]).into()] = NoTraits(1);\n}}\n",
         name = name,
         args = nc_args.join(", ")
     ));
